@@ -1,0 +1,126 @@
+//! Verification hooks; compiled only with `--cfg grex_verif`.
+#![allow(missing_docs)]
+use crate::builder::RegExpBuilder;
+use crate::grapheme::Grapheme;
+use std::cell::RefCell;
+use std::collections::{HashMap, HashSet};
+
+#[derive(Clone, Debug, PartialEq, Eq, Hash)]
+pub struct GSnap {
+    pub chars: Vec<String>,
+    pub min: u32,
+    pub max: u32,
+    pub nested: Vec<GSnap>,
+}
+
+impl GSnap {
+    pub(crate) fn of(g: &Grapheme) -> Self {
+        GSnap {
+            chars: g.chars.clone(),
+            min: g.minimum(),
+            max: g.maximum(),
+            nested: g.repetitions.iter().map(GSnap::of).collect(),
+        }
+    }
+}
+
+#[derive(Clone, Debug)]
+pub struct DfaSnap {
+    pub start: usize,
+    pub finals: Vec<usize>,
+    pub states: Vec<usize>,
+    pub edges: Vec<(usize, usize, GSnap)>,
+}
+
+#[derive(Clone, Debug)]
+pub struct Stages {
+    pub test_cases: Vec<String>,
+    pub clusters: Vec<Vec<GSnap>>,
+    pub trie: DfaSnap,
+    pub minimized: DfaSnap,
+    pub expression: String,
+}
+
+pub fn stages(builder: &RegExpBuilder) -> Stages {
+    let mut tcs = builder.test_cases.clone();
+    crate::regexp::RegExp::verif_stages(&mut tcs, &builder.config)
+}
+
+pub fn builder_state(builder: &RegExpBuilder) -> (Vec<String>, String) {
+    (builder.test_cases.clone(), format!("{:?}", builder.config))
+}
+
+pub fn cluster_len(s: &str, builder: &RegExpBuilder) -> usize {
+    crate::cluster::GraphemeCluster::from(s, &builder.config).size()
+}
+
+// ---- nondeterminism seams ----
+
+#[derive(Default)]
+struct Chooser {
+    prefix: Vec<usize>,
+    taken: Vec<(usize, usize)>,
+}
+
+thread_local! {
+    static CHOOSER: RefCell<Option<Chooser>> = const { RefCell::new(None) };
+}
+
+/// Install a chooser replaying `prefix`, default choice 0 afterwards.
+pub fn install(prefix: Vec<usize>) {
+    CHOOSER.with(|c| *c.borrow_mut() = Some(Chooser { prefix, taken: vec![] }));
+}
+
+/// Remove the chooser, returning (choice, arity) for each point passed.
+pub fn uninstall() -> Vec<(usize, usize)> {
+    CHOOSER.with(|c| c.borrow_mut().take().map(|x| x.taken).unwrap_or_default())
+}
+
+fn choose(arity: usize) -> Option<usize> {
+    CHOOSER.with(|c| {
+        let mut c = c.borrow_mut();
+        let ch = c.as_mut()?;
+        let i = ch.taken.len();
+        let pick = if i < ch.prefix.len() { ch.prefix[i] } else { 0 };
+        assert!(pick < arity, "verif: choice out of range while replaying");
+        ch.taken.push((pick, arity));
+        Some(pick)
+    })
+}
+
+pub(crate) fn choose_state<T: Copy + Ord + std::hash::Hash + Eq>(set: &HashSet<T>) -> T {
+    let mut members: Vec<T> = set.iter().copied().collect();
+    members.sort();
+    if members.len() == 1 {
+        return members[0];
+    }
+    match choose(members.len()) {
+        Some(i) => members[i],
+        None => *set.iter().next().unwrap(),
+    }
+}
+
+pub(crate) struct Ordered<K, V>(Vec<(K, V)>);
+
+impl<K, V> Ordered<K, V> {
+    pub(crate) fn iter(&self) -> impl Iterator<Item = (&K, &V)> {
+        self.0.iter().map(|(k, v)| (k, v))
+    }
+}
+
+/// Put a HashMap's entries into an explorer-chosen order (Lehmer code via successive choices).
+pub(crate) fn reorder<K: Ord + std::hash::Hash + Eq + Clone, V>(map: HashMap<K, V>) -> Ordered<K, V> {
+    let installed = CHOOSER.with(|c| c.borrow().is_some());
+    let mut entries: Vec<(K, V)> = map.into_iter().collect();
+    if !installed {
+        return Ordered(entries);
+    }
+    entries.sort_by(|a, b| a.0.cmp(&b.0));
+    let mut out = vec![];
+    while entries.len() > 1 {
+        let i = choose(entries.len()).unwrap();
+        out.push(entries.remove(i));
+    }
+    out.extend(entries);
+    Ordered(out)
+}
